@@ -3,3 +3,4 @@ import BU.Properties.C06
 #print axioms C06.grind_first_lowR
 #print axioms C06.sign_input_spec
 #print axioms C06.lowS_preserves_validity
+#print axioms C06.lowS_preserves_validity_unconditional
